@@ -38,7 +38,7 @@ RULE = ("cells 3-5 A with 1-4 atoms, grids 6-14, 1-8 slices (scalar or sequence 
 CLAUSES = ["eager-vs-lazy", "member-eager", "member-lazy", "crystal-member-structure", "window-slices", "window-open-end",
            "exit-plane-flags", "window-build-eager", "window-build-lazy", "window-build-eager-vs-lazy"]
 QUICK = dict(n=46, time=45)
-THOROUGH = dict(n=1600, time=400, shards=16)
+THOROUGH = dict(n=7700, time=480, shards=16)
 
 
 def setup(ctx):
